@@ -165,6 +165,7 @@ def check(rec, st):
     st.seen({"K": "images_kill", "PB": "images_power_barrier", "PD": "images_power_dropall", "SPD": "images_strict_posix_exploratory"}[rec["sem"]])
     st.seen("recovered_addresses", rec.get("n_new", 0))
     st.seen("recovered_request_failures", rec.get("n_fail", 0))
+    st.seen("keypool_exhausted_requests", rec.get("n_fail", 0))  # legal outcome: a locked wallet cannot refill hardened descriptors
     st.seen_max("addresses_before_crash_point", rec.get("n_before", 0))
     if rec.get("right_after"):
         st.seen("img_right_after_address_return")
